@@ -54,6 +54,19 @@ def gen_knots(rng, order, extra, style, scale=1.0, offset=0.0):
         for i in range(n):
             ks.append(float(a))
             a += rng.rint(1, 3)
+    elif style == "symm":
+        # symmetric, strongly non-uniform spacing (quadratic / geometric away from the centre): the first and the last span have
+        # EXACTLY the same width although the vector is far from evenly spaced — what an "is this grid uniform?" test that looks
+        # at the end spans only would mistake for a uniform grid
+        h = (n - 1) / 2.0
+        step = scale * (0.25 + rng.unit())
+        quad = rng.chance(0.6)
+        for i in range(n):
+            t_ = i - h
+            ks.append(offset + step * (t_ * abs(t_) if quad else (1.0 if t_ >= 0 else -1.0) * (1.5 ** abs(t_) - 1.0)))
+        # exact symmetry of the end spans in floating point: mirror the upper half onto the lower one
+        for i in range(n // 2):
+            ks[i] = 2.0 * offset - ks[n - 1 - i]
     elif style == "far":
         # knots far from the origin relative to their spacing (|t| / spacing = 2^12 .. 2^44: seconds since an epoch, large
         # coordinates): spans that single precision cannot resolve around x although the double recurrence can
